@@ -29,6 +29,7 @@ type GenOpts struct {
 	Cfgs       []Cfg
 	Yield      bool // add scheduling noise to bodies
 	SeqNoBody  bool // sequential registrations never publish from their body (documented deadlock)
+	CtxBody    float64 // probability that a body starts by cancelling / sampling one of the contexts
 	ChainPub   bool // registrations of the first type may publish events of the other types from their body
 }
 
@@ -79,6 +80,13 @@ func (g GenOpts) subOp(rnd *rand.Rand, types []string, depth int) Op {
 			}
 			o.Body = append(o.Body, g.bodyOp(rnd, types, o))
 		}
+	}
+	if depth == 0 && len(g.Ctxs) > 0 && rnd.Float64() < g.CtxBody {
+		k := "cancel"
+		if rnd.IntN(3) == 0 {
+			k = "ctxerr"
+		}
+		o.Body = append(o.Body, Op{Op: k, Ctx: pick(rnd, g.Ctxs)})
 	}
 	if g.Yield && rnd.IntN(3) == 0 {
 		o.Body = append([]Op{{Op: "yield", Yield: 1 + rnd.IntN(3)}}, o.Body...)
